@@ -214,8 +214,23 @@ func C19SharedCalls() {
 // zzFullSession: a real directory server and a real session connected to it (NewAuthSession: meta
 // object fetch, service list, signal subscriptions). Under the engine the listener and the dial
 // function are in-memory (sym.Replace); natively the same code runs over a real unix socket.
+// zzDialled: the client side of every connection the session dialled (zzFullSession).
+var zzDialled []*zzStream
+
+// zzOpenConnections: how many of them are still open.
+func zzOpenConnections() int {
+	n := 0
+	for _, c := range zzDialled {
+		if !c.isClosed() {
+			n++
+		}
+	}
+	return n
+}
+
 func zzFullSession() (bus.Server, *Session, *int32) {
 	l := newZZListener()
+	zzDialled = nil
 	dials := new(int32)
 	sym.Replace("github.com/lugu/qiloop/bus/net.Listen", func(addr string) (net.Listener, error) { return l, nil })
 	// the REAL bus.SelectEndPoint runs (address selection, authentication handshake); only the dial
@@ -223,6 +238,7 @@ func zzFullSession() (bus.Server, *Session, *int32) {
 	sym.Replace("github.com/lugu/qiloop/bus/net.DialEndPoint", func(addr string) (net.EndPoint, error) {
 		atomic.AddInt32(dials, 1)
 		cs, ss := zzPipe()
+		zzDialled = append(zzDialled, cs)
 		l.conns <- ss
 		sym.Yield() // connecting takes time: other requests run meanwhile
 		return net.NewEndPoint(cs), nil
@@ -312,6 +328,10 @@ func c19Full(multiHomed bool) {
 	s.pollMutex.RLock()
 	sym.Assert(len(s.poll) == want, "full/connections-held")
 	s.pollMutex.RUnlock()
+	// a goroutine that lost the race for an address may have dialled too, but it closed what it dialled:
+	// the connections still open are the pooled ones
+	sym.Quiesce()
+	sym.Assert(zzOpenConnections() == want, "full/connections-left-open-outside-the-pool")
 	// the advertised addresses are what they were (nobody scrambled the shared list)
 	after, err := s.findServiceName("multi")
 	sym.Assert(err == nil && len(after.Endpoints) == 3, "full/multi-service-endpoints")
